@@ -437,9 +437,9 @@ class Replay:
         # C04: a schedule that is rejected must leave *every* piece of state as it was when the scheduler
         # was asked (recompute flag and last-update period included): remember it
         self.pre_reject = self.snapshot() if self.pending_bad is not None else None
-        return self.realise(m)
+        return self.realise(m, alg.interface)
 
-    def realise(self, m):
+    def realise(self, m, iface=None):
         rows = idx_map(m["rows"]) if m["rows"] not in ([], {}) else {}
         rng = self.var.rng
         if self.pu == 1:
@@ -451,6 +451,15 @@ class Replay:
             items.append(("NOPE-99", [0] * m["len"]))
         if m["kind"] == "ragged":
             items[0] = (items[0][0], items[0][1] + [0])
+        if (iface is not None and m["kind"] == "ok" and m["len"] >= 1 and len(items) == self.ns and self.var.vtypes
+                and rng.random() < 0.5):
+            # the documented helper for algorithms that work on arrays: rows in the order of the infrastructure's
+            # station_ids, a 1-D array for a one-period schedule
+            from acnportal.algorithms.postprocessing import format_array_schedule
+            info = iface.infrastructure_info()
+            byid = dict(items)
+            arr = np.array([byid[st] for st in info.station_ids], dtype=float)
+            return format_array_schedule(arr[:, 0] if m["len"] == 1 and rng.random() < 0.5 else arr, info)
         if self.var.dict_shuffle:
             rng.shuffle(items)
         out = {}
